@@ -167,8 +167,8 @@ def step36 (line : String) : String :=
     let dflt := fun (v : Int) (d : Nat) => if v == 0 then d * secNs else msToNs v
     let c : Cfg := { sec := secNs, pingInterval := pi, pongTimeout := po,
                      staleDelay := dflt (gi "stale") 15, ecd := dflt (gi "ecd") 25, escd := dflt (gi "escd") 25,
-                     presInterval := dflt (gi "pres") 25, csr := g "csr" == "1", hasRH := g "rh" == "1",
-                     hasSRH := g "srh" == "1" }
+                     presInterval := dflt (gi "pres") 25, csr := g "csr" == "1" && g "och" != "0", hasRH := g "rh" == "1",
+                     hasSRH := g "srh" == "1", uni := g "uni" == "1" }
     match parseScript (g "rhr"), parseScript (g "srhr") with
     | some rhr, some srhr =>
       let jp := (gi "jp").toNat
